@@ -91,6 +91,12 @@ def run_path(contract, decisions, registry, first):
         if contract.ghost_init is not None:
             contract.ghost_init(E)
         env = dict(args)
+        if info.node.args.kwarg is not None and info.node.args.kwarg.arg not in env:
+            d = PyDict()
+            for _k, _v in kwargs.items():
+                d.keys.append(_k)
+                d.vals.append(_v)
+            env[info.node.args.kwarg.arg] = d       # clauses may name the **kwargs parameter
         env.update({'S': S, 'E': E, 'ghost': NS(ip.state.ghost)})
         env.update(ctx.skolems)
         for label, fn in contract.requires.items():
@@ -107,7 +113,7 @@ def run_path(contract, decisions, registry, first):
         if contract.modifies is not None:
             allowed = set()
             for p in contract.modifies:
-                if p.startswith('ghost.'):
+                if p.startswith('ghost.') and p.count('.') == 1:
                     continue
                 if p.startswith('class:'):
                     q, a = p[6:].rsplit('.', 1)
@@ -117,7 +123,11 @@ def run_path(contract, decisions, registry, first):
                     q, a = p[6:].rsplit('.', 1)
                     allowed.add((('field', q), a))
                     continue
-                loc = resolve(ip, args, p)
+                roots = args
+                if p.startswith('ghost.'):
+                    # a heap location reached through a ghost reference (e.g. the server context a pooled client belongs to)
+                    roots = {'ghost': Obj(None, dict(ip.state.ghost))}
+                loc = resolve(ip, roots, p)
                 if loc is None:
                     raise Unsupported('modifies path %s does not resolve' % p)
                 holder, attr = loc
